@@ -11,6 +11,7 @@ one response line per request.  Strings travel as hex of their UTF-8 bytes.
   cli <fuel> <stdin> <fs> <text> <arg>*
 -/
 import UH.Model.Main
+import UH.Model.MainBig
 open UH
 
 def hexVal (c : Char) : Nat :=
@@ -108,6 +109,16 @@ def handle (line : String) : String :=
         s!" events={",".intercalate (r.events.map (eventStr r.store))} starts={r.starts.length} cells={r.store.cells.size}"
       else ""
     s!"{base} {worldStr r.world}{ev}"
+  | "main2" :: fio :: fuel :: stdin :: fs :: text :: _ =>
+    let (o, w, h) := runMainBig fuel.toNat! (mkWorld stdin fs) (cps (unhex text)) (fio == "1")
+    let base := match o with
+      | .ok rs => s!"ok {rs.length} {" ".intercalate (rs.map hexStr)}"
+      | .err e f => errStr e f
+      | .limit => "limit"
+      | .fuel => "fuel"
+      | .bottom => "bottom"
+      | .unmodelled why => s!"unmodelled {hexStr why}"
+    s!"{base} {worldStr w} height={h}"
   | "cli" :: fuel :: stdin :: fs :: text :: args =>
     let (o, w) := runCli fuel.toNat! (mkWorld stdin fs) (cps (unhex text)) (args.map unhex)
     let base := match o with
